@@ -100,7 +100,10 @@ PROPS = {
         "assumptions": HIST_ASSUME,
     },
     "C16": {
-        "theorems": ["resolve_reads_only", "resolve_keeps_tracking", "chain_ends_in_path", "resolve_identity_without_links_partial", "resolve_empty", "resolve_exact_linkfree_partial"],
+        "theorems": ["resolve_reads_only", "resolve_keeps_tracking", "chain_ends_in_path", "resolve_identity_without_links_partial", "resolve_empty", "resolve_exact_linkfree_partial",
+                     "resolve_exact_flat_links_partial", "nofollow_calls_agree", "resolve_terminates", "resolve_cycle_fails_or_returns",
+                     "flat_cleaned_target_is_not_enough"],
+        "extra_modules": ["C16F"],
         "streams": [{"name": "hist", "quick": ["-n", "400"], "thorough": ["-n", "24000"]}],
         "assumptions": HIST_ASSUME,
     },
